@@ -110,6 +110,8 @@ struct World {
     std::vector<int> sh_count;
     std::vector<std::set<int>> sh_cond;
     std::vector<char> mx_handoff;   //!< an unlock woke a waiter that has not run yet (window counter only)
+    std::vector<char> cond_added;   //!< add() was called since the condition set was last cleared by a completed wait()
+    std::vector<char> cond_early;   //!< a listed value was posted while nobody was inside wait() (between add() and wait())
 
     // driver state
     size_t mp = 0;
@@ -295,11 +297,15 @@ struct World {
                 if (n >= 2) vh::counter("bcast_post_with_two_or_more_waiters");
                 break;
             }
-            case CADD: sh_cond[e.a].insert(e.b); break;
-            case CWAIT: break;
+            case CADD: sh_cond[e.a].insert(e.b); cond_added[e.a] = 1; vh::counter("cond_add"); break;
+            case CWAIT:
+                // a post that landed between add() and wait() counts: the set may already be (partly) satisfied here
+                if (cond_early[e.a] && cond_added[e.a]) vh::counter(sh_cond[e.a].empty() ? "cond_wait_called_already_satisfied" : "cond_wait_called_after_early_partial_post");
+                break;
             case CPOST: {
                 std::set<int> &S = sh_cond[e.a];
                 if (S.find(e.b) == S.end()) { vh::counter("cond_post_unlisted_value"); break; }
+                if (waiters_on(CWAIT, e.a, e.rid) == 0) { cond_early[e.a] = 1; vh::counter("cond_post_between_add_and_wait"); }
                 bool sat;
                 if (cond_all[e.a]) { S.erase(e.b); sat = S.empty(); if (!sat) vh::counter("cond_all_partial_post"); }
                 else { S.clear(); sat = true; }
@@ -445,8 +451,17 @@ struct World {
                 if (suspended && e.res) { vh::counter("bcast_waiter_resumed"); ++prim_wakeups; }
                 break;
             case CWAIT:
-                if (suspended) { sh_cond[e.a].clear(); if (e.res) { vh::counter("cond_waiter_resumed"); ++prim_wakeups; } }
-                else vh::counter("cond_wait_refused");
+                if (suspended) {
+                    if (e.res && cond_early[e.a]) vh::counter("cond_waiter_resumed_after_early_post");
+                    sh_cond[e.a].clear(); cond_added[e.a] = 0; cond_early[e.a] = 0;
+                    if (e.res) { vh::counter("cond_waiter_resumed"); ++prim_wakeups; }
+                } else if (sh_cond[e.a].empty() && cond_added[e.a] && cond_early[e.a]) {
+                    // everything that was added has been posted before wait() was called: it must not block (it returns false)
+                    vh::counter("cond_wait_returned_immediately_already_satisfied");
+                    cond_added[e.a] = 0; cond_early[e.a] = 0;
+                } else {
+                    vh::counter("cond_wait_refused");
+                }
                 break;
             case JOIN:
                 if (e.res) {
@@ -509,7 +524,13 @@ struct World {
                     if (x.owed) report("idle/broadcast/waiter-not-resumed", vh::fmt("r%d was waiting on b%d when it was posted and has not been resumed", r, a), upto);
                     break;
                 case CWAIT:
-                    if (x.owed) report("idle/condition/waiter-not-resumed", vh::fmt("r%d was waiting on k%d when it became satisfied and has not been resumed", r, a), upto);
+                    if (x.owed)
+                        report("idle/condition/waiter-not-resumed", vh::fmt("r%d was waiting on k%d when it became satisfied and has not been resumed", r, a), upto);
+                    else if (sh_cond[a].empty())
+                        report("idle/condition/waiter-suspended-on-satisfied",
+                               vh::fmt("r%d is suspended in wait() on k%d (%s) although every condition it added had been posted before it called wait()",
+                                       r, a, cond_all[a] ? "All" : "Any"), upto);
+                    else ++deadlocked;
                     break;
                 case JOIN:
                     if (rt[a].ended) report("idle/join/joiner-suspended-after-target-finished", vh::fmt("r%d is suspended in join r%d, which has ended", r, a), upto);
@@ -679,6 +700,7 @@ struct World {
             cond.emplace_back(new Condition<int>(*sch, a ? Condition<int>::Logic::kAll : Condition<int>::Logic::kAny));
         sem_init = sems; cond_all = conds_all; cond_owner = owners; nbcast = nbc;
         sh_q.resize(nch); sh_holder.assign(nmx, -1); sh_count = sems; sh_cond.resize(conds_all.size()); mx_handoff.assign(nmx, 0);
+        cond_added.assign(conds_all.size(), 0); cond_early.assign(conds_all.size(), 0);
         ev.reserve(1024);
     }
 
@@ -717,7 +739,7 @@ Op pick_op(vh::Rng &r, const Weights &W) {
 Weights mixed_weights() {
     Weights W; memset(&W, 0, sizeof W);
     W.w[YIELD] = 14; W.w[WAIT] = 4; W.w[SEND] = 10; W.w[RECV] = 10; W.w[LOCK] = 8; W.w[UNLOCK] = 2; W.w[ACQ] = 7; W.w[REL] = 7;
-    W.w[BWAIT] = 4; W.w[BPOST] = 4; W.w[CWAIT] = 3; W.w[CPOST] = 4; W.w[JOIN] = 4; W.w[CREATE] = 3; W.w[CANCEL] = 2; W.w[RESUME] = 3;
+    W.w[BWAIT] = 4; W.w[BPOST] = 4; W.w[CADD] = 2; W.w[CWAIT] = 3; W.w[CPOST] = 4; W.w[JOIN] = 4; W.w[CREATE] = 3; W.w[CANCEL] = 2; W.w[RESUME] = 3;
     return W;
 }
 
@@ -727,7 +749,7 @@ Weights theme_weights(int theme) {
         case 1: W.w[SEND] = 10; W.w[RECV] = 12; W.w[YIELD] = 6; break;
         case 2: W.w[LOCK] = 12; W.w[UNLOCK] = 2; W.w[YIELD] = 7; break;
         case 3: W.w[ACQ] = 12; W.w[REL] = 10; W.w[YIELD] = 6; break;
-        case 4: W.w[BWAIT] = 8; W.w[BPOST] = 6; W.w[CWAIT] = 6; W.w[CPOST] = 8; W.w[YIELD] = 6; break;
+        case 4: W.w[BWAIT] = 7; W.w[BPOST] = 5; W.w[CADD] = 4; W.w[CWAIT] = 7; W.w[CPOST] = 10; W.w[YIELD] = 7; break;
         case 5: W.w[JOIN] = 10; W.w[CREATE] = 7; W.w[CANCEL] = 5; W.w[YIELD] = 8; W.w[WAIT] = 3; W.w[RECV] = 3; break;
         case 6: W.w[YIELD] = 12; W.w[WAIT] = 8; W.w[RESUME] = 6; W.w[CANCEL] = 2; break;
         default: return mixed_weights();
@@ -805,16 +827,27 @@ void random_case(uint64_t, vh::Rng &r) {
                 case ACQ: case REL: s.a = (int)r.below(nsem); break;
                 case BWAIT: case BPOST: s.a = 0; break;
                 case CPOST: s.a = (int)r.below(ncond); s.b = (int)r.below(3); break;
-                case CWAIT: {
+                case CADD: case CWAIT: {
                     // only the designated waiter adds and waits (Condition supports one waiter); others post instead
                     std::vector<int> mine;
                     for (int c = 0; c < ncond; ++c) if (owners[c] == i) mine.push_back(c);
                     if (mine.empty()) { s.op = CPOST; s.a = (int)r.below(ncond); s.b = (int)r.below(3); break; }
                     s.a = mine[r.below(mine.size())];
+                    if (op == CADD) { s.b = (int)r.below(3); break; }
+                    if (r.chance(1, 4)) break;      // a bare wait(): whatever was added earlier (possibly nothing)
                     int nadd = 1 + (int)r.below(2);
-                    if (r.chance(1, 10)) nadd = 0;
                     int v0 = (int)r.below(3);
                     for (int k = 0; k < nadd; ++k) st.push_back(Step{CADD, s.a, (v0 + k) % 3});
+                    // the window between add() and wait(): the waiter gives up the CPU 0-2 times, so posts can land in it
+                    int gap = r.chance(1, 3) ? 0 : 1 + (int)r.below(2);
+                    for (int k = 0; k < gap; ++k) {
+                        unsigned g = (unsigned)r.below(10);
+                        if (g < 6) st.push_back(Step{YIELD, 0, 0});
+                        else if (g < 7) st.push_back(Step{WAIT, 0, 0});
+                        else if (g < 8) st.push_back(Step{RECV, (int)r.below(nch), 0});
+                        else if (g < 9) st.push_back(Step{ACQ, (int)r.below(nsem), 0});
+                        else st.push_back(Step{CPOST, s.a, (v0 + (int)r.below(2)) % 3});
+                    }
                     break;
                 }
                 case JOIN:      // joining oneself can only dead-lock: treated as misuse, not generated
@@ -911,6 +944,46 @@ void exhaustive_case(uint64_t idx, vh::Rng &r) {
     finish_case(w, "exhaustive");
 }
 
+// ---- exhaustive-cond: one Condition (All / Any); the waiter r0 runs every script of 1-4 steps over
+// {add 1, add 2, wait, yield}; 0-2 posters run every script of 1-2 steps over {post 1, post 2, yield} -------------
+constexpr uint64_t kCondWaiterScripts = 4 + 16 + 64 + 256;      // 340
+constexpr uint64_t kCondPosterScripts = 3 + 9;                  // 12
+constexpr uint64_t kCondPosterCombos = 1 + kCondPosterScripts + kCondPosterScripts * kCondPosterScripts;   // 157
+constexpr uint64_t kCondTotal = 2 * kCondWaiterScripts * kCondPosterCombos;                                // 106760
+
+void decode_n(uint64_t k, const Step *alpha, uint64_t n, std::vector<Step> &out) {
+    int len = 1; uint64_t p = n;
+    while (k >= p) { k -= p; p *= n; ++len; }
+    for (int i = 0; i < len; ++i) { out.push_back(alpha[k % n]); k /= n; }
+}
+
+void exhaustive_cond_case(uint64_t idx, vh::Rng &r) {
+    static const Step wa[4] = {{CADD, 0, 1}, {CADD, 0, 2}, {CWAIT, 0, 0}, {YIELD, 0, 0}};
+    static const Step pa[3] = {{CPOST, 0, 1}, {CPOST, 0, 2}, {YIELD, 0, 0}};
+    if (idx >= kCondTotal) return;
+    World w;
+    w.rng = &r;
+    w.exhaustive = true;
+    w.stack_size = (size_t)vh::st().args.num("stack", 0);
+    const int all = (int)(idx / (kCondWaiterScripts * kCondPosterCombos));
+    uint64_t rem = idx % (kCondWaiterScripts * kCondPosterCombos);
+    const uint64_t ws = rem / kCondPosterCombos;
+    uint64_t pc = rem % kCondPosterCombos;
+    w.build(1, 1, std::vector<int>{0}, 1, std::vector<int>{all}, std::vector<int>{0});
+    int np = pc == 0 ? 0 : pc <= kCondPosterScripts ? 1 : 2;
+    w.scripts.resize(1 + np);
+    decode_n(ws, wa, 4, w.scripts[0].steps);
+    if (np == 1) decode_n(pc - 1, pa, 3, w.scripts[1].steps);
+    if (np == 2) {
+        pc -= 1 + kCondPosterScripts;
+        decode_n(pc % kCondPosterScripts, pa, 3, w.scripts[1].steps);
+        decode_n(pc / kCondPosterScripts, pa, 3, w.scripts[2].steps);
+    }
+    vh::counter(all ? "exhaustive_cond_all_cases" : "exhaustive_cond_any_cases");
+    w.run(false);
+    finish_case(w, "exhaustive-cond");
+}
+
 // ---- directed: the histories the unit tests never choose --------------------------------------------
 struct Directed {
     const char *name;
@@ -977,6 +1050,15 @@ const std::vector<Directed> &directed_table() {
                  {S({{RECV, 0, 0}}), S({Y, Y}), S({Wt}, false)}, {M(W_NOW, CLEANUP)}});
     T.push_back({"wait/resume: resume from a routine and from main, yield ping-pong", 1, 1, {0}, 1, {}, {},
                  {S({Wt, Y, Wt}), S({Y, {RESUME, 0, 0}, Y, Y})}, {M(W_IDLE, RESUME, 0)}});
+    // condition: posts that land between add() and wait() must be remembered
+    T.push_back({"cond All: first condition posted between add() and wait(), the last one while the waiter is suspended", 1, 1, {0}, 1, {1}, {0},
+                 {S({{CADD, 0, 1}, {CADD, 0, 2}, Y, {CWAIT, 0, 0}}), S({{CPOST, 0, 1}}), S({Y, Y, {CPOST, 0, 2}})}, {}});
+    T.push_back({"cond Any: the only post lands between add() and wait(); wait() must not block", 1, 1, {0}, 1, {0}, {0},
+                 {S({{CADD, 0, 1}, {CADD, 0, 2}, Y, {CWAIT, 0, 0}, Y}), S({{CPOST, 0, 2}})}, {}});
+    T.push_back({"cond All: early post from the main context, waiter parked in wait() in between, last post from main", 1, 1, {0}, 1, {1}, {0},
+                 {S({{CADD, 0, 0}, {CADD, 0, 1}, Wt, {CWAIT, 0, 0}})}, {M(W_IDLE, CPOST, 0, 0), M(W_NOW, RESUME, 0), M(W_IDLE, CPOST, 0, 1)}});
+    T.push_back({"cond All: every condition posted before wait(); wait() must not block", 1, 1, {0}, 1, {1}, {0},
+                 {S({{CADD, 0, 1}, {CADD, 0, 2}, Y, Y, {CWAIT, 0, 0}, Y}), S({{CPOST, 0, 2}, Y, {CPOST, 0, 1}})}, {}});
     return T;
 }
 
@@ -1001,6 +1083,8 @@ void directed_case(uint64_t idx, vh::Rng &r) {
 int main(int argc, char **argv) {
     vh::parse_args(argc, argv);
     const std::string mode = vh::st().args.mode;
+    if (mode == "ccount") { printf("%llu\n", (unsigned long long)kCondTotal); return 0; }
+    if (mode == "exhaustive-cond") return vh::run(argc, argv, exhaustive_cond_case);
     if (mode == "xcount") { printf("%llu\n", (unsigned long long)exhaustive_total((int)vh::st().args.num("depth", 3))); return 0; }
     if (mode == "dcount") { printf("%zu\n", directed_table().size() * 2); return 0; }
     if (mode.compare(0, 10, "exhaustive") == 0) return vh::run(argc, argv, exhaustive_case);   // "exhaustive", "exhaustive4"
